@@ -13,15 +13,15 @@ SESSION_TRUST = ['support/stubs/fstream: in-memory std::fstream / file model', '
                  'engine/models.py: std::thread / mutex / condition_variable as cooperative threads (one schedule per run)']
 
 
-def session_tasks(tier, checks, prefix, msg_prefix, early=(), nobj=4, kinds=None, scaled=False):
+def session_tasks(tier, checks, prefix, msg_prefix, early=(), nobj=4, kinds=None, scaled=False, slow=False):
     cfgs = QUICK if tier == 'quick' else THOROUGH
     out = []
     for lvl, cs, rp in cfgs:
         for ec in (-1,) + tuple(early):
             defs = '#define VP_FS_CAP 24000\n#define CFG_LEVEL %d\n#define CFG_CONTAINER %d\n#define CFG_RESTORE %d\n' \
                    '#define NOBJ %d\n#define EARLY_CLOSE_AFTER %d\n' % (lvl, cs, rp, nobj, ec)
-            defs += ''.join('#define %s 1\n' % c for c in checks) + ('#define SCALE_THRESHOLDS 1\n' if scaled else '')
-            tid = '%s%s.l%d_c%d_r%d%s' % (prefix, '_scaled' if scaled else '', lvl, cs, rp, '' if ec < 0 else '_close%d' % ec)
+            defs += ''.join('#define %s 1\n' % c for c in checks) + ('#define SCALE_THRESHOLDS 1\n' if scaled else '') + ('#define SLOW_PRODUCER 1\n' if slow else '')
+            tid = '%s%s%s.l%d_c%d_r%d%s' % (prefix, '_scaled' if scaled else '', '_slow' if slow else '', lvl, cs, rp, '' if ec < 0 else '_close%d' % ec)
             out.append(Task(tid, defs + SRC, 'h_session', None,
                             opts=dict(validate=False, extra=['zlib_stub.cpp'], limit_is_hang=True, max_steps=12000000, max_wall=300,
                                       enum_limit=400, msg_prefix=msg_prefix),
